@@ -45,6 +45,26 @@ func c06concPlans(thorough bool) []c06concPlan {
 		{Name: "del/readd history: prune(v1) | read v3", Prefix: []L{c(1, "add2"), f(1, 0), c(2, "del"), f(2, 0), c(3, "add"), f(3, 0)}, Writers: [][]L{{p(1)}}, Read: [][]uint64{{3}}},
 		{Name: "commit(v4,add) finalize(v4) | prune(v1) | read v2", Prefix: three, Writers: [][]L{{c(4, "add"), f(4, 0)}, {p(1)}}, Read: [][]uint64{{2}}},
 	}
+	cio := func(v uint64, b string) L { return L{Op: "commit", V: v, Batch: b, Type: "io"} }
+	fio := func(v uint64, ch int) L { return L{Op: "finalize", V: v, Choice: ch, IO: 1} }
+	plans = append(plans,
+		// IO root next to the state root, finalized together, while the previous version is read
+		c06concPlan{Name: "commit(v3,mod) commit(v3,add,io) finalize(v3,#0,io#0) | read v2", Prefix: three[:4], Writers: [][]L{{c(3, "mod"), cio(3, "add"), fio(3, 0)}}, Read: [][]uint64{{2}}},
+	)
+	if thorough {
+		mp := []L{{Op: "mpstart", V: 5}}
+		if st, err := makeCheckpoint(5); err == nil {
+			for i := range st.chunks {
+				mp = append(mp, L{Op: "mpchunk", V: 5, Chunk: i})
+			}
+		}
+		mp = append(mp, L{Op: "mpfinalize", V: 5})
+		plans = append(plans,
+			// a checkpoint restore jumping forward while an old retained version is read
+			c06concPlan{Name: "restore(v5) | read v2", Prefix: three[:4], Writers: [][]L{mp}, Read: [][]uint64{{2}}},
+			c06concPlan{Name: "commit(v3,add) commit(v3,add2,io) finalize(v3,#0) (io discarded) | read v2", Prefix: three[:4], Writers: [][]L{{c(3, "add"), cio(3, "add2"), f(3, 0)}}, Read: [][]uint64{{2}}},
+		)
+	}
 	if thorough {
 		plans = append(plans,
 			c06concPlan{Name: "commit(v4,clear) finalize(v4) | prune(v1) prune(v2) | read v3", Prefix: three, Writers: [][]L{{c(4, "clear"), f(4, 0)}, {p(1), p(2)}}, Read: [][]uint64{{3}}},
